@@ -11,10 +11,15 @@ func init() {
 			{Name: "batch-interleavings", Pkg: ".", Files: []string{"root/fed.go", "root/c01.go", "root/c08.go"}, Entry: "VerifBatch", Mode: "all", Race: true,
 				Quick: map[string]int{"rmax": 2, "classes": 12}, Thorough: map[string]int{"rmax": 2, "classes": 12},
 				Reach: []string{"batch of several"}, Functions: []string{"(*Gateway).queryHandler", "(*Gateway).queryHandler$1", "(*Gateway).queryHandler$2", "common.AsyncMapReduce[int,*Result,Results]"}},
+			{Name: "repeat-mixed-introspection", Pkg: ".", Files: []string{"root/fed.go", "root/c01.go", "root/c14g.go"}, Entry: "VerifCacheGateway", Mode: "seq",
+				Quick: map[string]int{"hmax": 2, "mixedpool": 1, "maporder": 1}, Thorough: map[string]int{"hmax": 3, "mixedpool": 1, "maporder": 2},
+				Reach: []string{"history through the gateway"}, Functions: []string{"(*Gateway).queryHandler", "(*Gateway).parseIntrospectionQuery", "planner.(*CachedPlanner).Plan", "planner.routeSelectionSet"}},
 			{Name: "repeat-with-cache", Pkg: ".", Files: []string{"root/fed.go", "root/c01.go", "root/c02.go", "root/c13.go"}, Entry: "VerifRepeatWithCache", Mode: "seq", Native: true,
+				Quick: map[string]int{"pairops": 26}, Thorough: map[string]int{"pairops": 0},
 				Reach: []string{"repeat compared"}, Functions: pipelineFns},
 		},
 		Assume: []string{
+			"repeat-mixed-introspection: operations that select introspection fields next to ordinary ones, repeated on one gateway with the caching planner, under symbolic map orders (the C14 kernel of the same name)",
 			"repeat-with-cache: every ordered pair (B, A) of the README scenario operations: B, A, B sent to one gateway with the caching planner; both answers to B are compared",
 			"map iteration order is a symbolic choice for up to `maporder` range loops of the code under test per run (each such loop runs in insertion order, reversed, or rotated by one), insertion order for the others",
 			"self-composition: the same operation is sent twice to the same gateway and the observables are compared",
